@@ -121,6 +121,10 @@ impl Vm {
       self.fiber_queue.push_back(new_fiber);
       self.current_fun = current_fun;
       self.load_ip();
+    } else {
+      // the callee ran to completion without a frame (a native, a class without a
+      // laythe initializer): a launch is a statement, its result is not used
+      self.fiber.drop();
     }
 
     ExecutionSignal::Ok
